@@ -21,8 +21,20 @@ FixedOutLen(alg) ==
     [] alg \in {"sha512", "sha3_512", "keccak512"} -> 64
 MaxOut(alg) == IF alg = "blake2b" THEN 64 ELSE 32          \* BLAKE2 limits (RFC 7693 2.1)
 MaxKey(alg) == IF alg = "blake2b" THEN 64 ELSE 32
+\* Merkle-Damgard variants with a preset processed-bytes count (verification hook): start = the count as 16 little-endian bytes
+DigestOff(alg, off, msg) ==
+  CASE alg = "sha1" -> Sha1Off(msg, off)
+    [] alg = "ripemd160" -> Ripemd160Off(msg, off)
+    [] alg = "sha224" -> Hash256Off(H224, msg, 28, off)
+    [] alg = "sha256" -> Hash256Off(H256, msg, 32, off)
+    [] alg = "sha384" -> Hash512Off(H384, msg, 48, off)
+    [] alg = "sha512" -> Hash512Off(H512, msg, 64, off)
+    [] alg = "sha512_224" -> Hash512Off(H512T224, msg, 28, off)
+    [] alg = "sha512_256" -> Hash512Off(H512T256, msg, 32, off)
+IsMD(alg) == alg \in {"sha1", "ripemd160", "sha224", "sha256", "sha384", "sha512", "sha512_224", "sha512_256"}
 Digest(alg, key, outlen, start, msg) ==
-  CASE alg = "sha1" -> Sha1(msg)
+  CASE IsMD(alg) /\ start # <<>> -> DigestOff(alg, start, msg)
+    [] alg = "sha1" -> Sha1(msg)
     [] alg = "ripemd160" -> Ripemd160(msg)
     [] alg = "sha224" -> Sha224(msg)
     [] alg = "sha256" -> Sha256(msg)
